@@ -254,6 +254,64 @@ Proof.
     match goal with |- context [100 <? ?x] => destruct (100 <? x) eqn:Ea; [lia|]; destruct (x <? -100) eqn:Eb; lia end.
 Qed.
 
+(* ---------------------------------------------------------------- the stamp stored before vs. the clock *)
+Lemma modify_rec_modified r mtime update : length r = REC_SZ -> 0 < mtime ->
+  rec_modified (modify_rec r mtime update) = le32 mtime.
+Proof.
+  intros Hr Hm. change REC_SZ with 128%nat in *. unfold modify_rec, rec_modified.
+  assert (E : (0 <? mtime) = true) by lia. rewrite E.
+  assert (L1 : length (patch r OFF_MODIFIED (le32 mtime)) = 128%nat).
+  { rewrite patch_length; [exact Hr|]. rewrite le32_length, Hr. unfold OFF_MODIFIED. lia. }
+  assert (S1 : slice (patch r OFF_MODIFIED (le32 mtime)) OFF_MODIFIED 4 = le32 mtime).
+  { assert (Hb : (OFF_MODIFIED + length (le32 mtime) <= length r)%nat) by (rewrite le32_length, Hr; unfold OFF_MODIFIED; lia).
+    exact (slice_patch_same r OFF_MODIFIED (le32 mtime) Hb). }
+  destruct (update =? 0); [exact S1|].
+  transitivity (slice (patch r OFF_MODIFIED (le32 mtime)) OFF_MODIFIED 4); [|exact S1]. apply nth_error_ext. intros k.
+  destruct (Nat.lt_ge_cases k 4) as [Hk|Hk].
+  - rewrite !slice_nth by exact Hk. apply patch_nth_outside; [rewrite L1; cbn [length]; unfold OFF_RECOMMEND; lia|cbn [length]; unfold OFF_RECOMMEND, OFF_MODIFIED; lia].
+  - set (x := u8 (clamp (wrap8 (update + rec_score r)))).
+    assert (L2 : length (patch (patch r OFF_MODIFIED (le32 mtime)) OFF_RECOMMEND [x]) = 128%nat).
+    { rewrite patch_length; [exact L1|]. rewrite L1. cbn [length]. unfold OFF_RECOMMEND. lia. }
+    transitivity (@None Z); [|symmetry]; apply nth_error_None.
+    + rewrite slice_length by (rewrite L2; unfold OFF_MODIFIED; lia). lia.
+    + rewrite slice_length by (rewrite L1; unfold OFF_MODIFIED; lia). lia.
+Qed.
+
+(* after an accepted comment the entry's Modified field is the article file's mtime - whatever was stored before *)
+Lemma modified_is_mtime c name ct content clock mtime s line s' i :
+  recommend c name ct content clock mtime s = COk line s' ->
+  find_entry (s_dir s) name (length (s_dir s) / REC_SZ) = Some i ->
+  0 < mtime ->
+  rec_modified (rec_at (s_dir s') i) = le32 mtime.
+Proof.
+  intros H Hf Hm. destruct (accepted_inv _ _ _ _ _ _ _ _ _ H) as (i' & Hf' & _ & _ & _ & _ & Hs).
+  rewrite Hf in Hf'. injection Hf' as <-. pose proof (find_entry_lt _ _ _ _ Hf) as Hi.
+  pose proof (entry_in_range _ i Hi) as Hr. pose proof (rec_at_length _ i Hi) as Hl.
+  rewrite Hs. unfold do_add_recommend. assert (E : (0 <? mtime) = true) by lia. rewrite E. cbn [s_dir].
+  set (upd := update_of ct (rec_score (rec_at (s_dir s) i))).
+  assert (Hrec : rec_at (modify_dir_lite (s_dir s) i mtime upd) i = modify_rec (rec_at (s_dir s) i) mtime upd).
+  { pose proof (slice_patch_same (s_dir s) (i * REC_SZ) (modify_rec (rec_at (s_dir s) i) mtime upd)) as X.
+    rewrite modify_rec_length in X by exact Hl. unfold modify_dir_lite. unfold rec_at at 1. apply X. exact Hr. }
+  rewrite Hrec. apply modify_rec_modified; assumption.
+Qed.
+
+(* the clock reads EARLIER than the stamp stored in the entry (clock stepped back, entry stamped by a host running ahead):
+   the comment is appended, the score moves by its delta and Modified becomes the file's mtime all the same *)
+Lemma clock_behind_stamp c name ct content clock mtime s line s' i stamp :
+  recommend c name ct content clock mtime s = COk line s' ->
+  find_entry (s_dir s) name (length (s_dir s) / REC_SZ) = Some i ->
+  rec_modified (rec_at (s_dir s) i) = le32 stamp -> 0 < mtime < stamp ->
+  -100 <= rec_score (rec_at (s_dir s) i) <= 100 ->
+  s_art s' = s_art s ++ line /\
+  rec_score (rec_at (s_dir s') i) = clamp (rec_score (rec_at (s_dir s) i) + delta ct) /\
+  rec_modified (rec_at (s_dir s') i) = le32 mtime.
+Proof.
+  intros H Hf _ [Hm _] Hs.
+  split; [exact (proj1 (append_only _ _ _ _ _ _ _ _ _ H))|].
+  split; [exact (proj1 (score_step _ _ _ _ _ _ _ _ _ _ H Hf Hm Hs))|].
+  exact (modified_is_mtime _ _ _ _ _ _ _ _ _ _ H Hf Hm).
+Qed.
+
 Lemma refusals (c : cfg) name ct content clock mtime s i :
   find_entry (s_dir s) name (length (s_dir s) / REC_SZ) = Some i ->
   c_norec c = true \/ nth 0 name 0 = 76 \/ locked (rec_filemode (rec_at (s_dir s) i)) = true ->
@@ -351,6 +409,15 @@ Proof. split; [vm_compute; reflexivity|]. split; [vm_compute; reflexivity|]. eex
 Example ex_saturates :
   rec_score (rec_at (s_dir (run_seq ex_cfg ex_name [(1, [104], ex_clock, 1700000000); (1, [], ex_clock, 1700000001); (2, [], ex_clock, 1700000002)] ex_state)) 0) = 99.
 Proof. vm_compute. reflexivity. Qed.
+
+(* non-vacuity of clock_behind_stamp: the entry carries a stamp of 2033, the clock (and the file's mtime) reads 2023 *)
+Definition ex_ahead : st := St [120; 10] (stamp_named ex_dir ex_name 2000000000).
+Example ex_clock_behind :
+  find_entry (s_dir ex_ahead) ex_name (length (s_dir ex_ahead) / REC_SZ) = Some 0%nat /\
+  rec_modified (rec_at (s_dir ex_ahead) 0) = le32 2000000000 /\
+  exists line s', recommend ex_cfg ex_name 1 [104; 105] ex_clock 1700000000 ex_ahead = COk line s' /\
+    rec_score (rec_at (s_dir s') 0) = 100 /\ rec_modified (rec_at (s_dir s') 0) = le32 1700000000.
+Proof. split; [vm_compute; reflexivity|]. split; [vm_compute; reflexivity|]. eexists. eexists. split; [vm_compute; reflexivity|]. split; vm_compute; reflexivity. Qed.
 
 (* ================================================================ board sessions: several articles, several commenters,
    every comment-related board attribute; histories of comments *)
